@@ -128,6 +128,39 @@ def body(run):
                               signature=dict(kind='mask-lost', whole_line=col_all or row_all,
                                              cause='gain-offset-degenerate-window' if degenerate else ('blk-offset-degenerate-block' if blk_degenerate else 'other')))
     run.cov['evaluations'] += ncorr
+    # ---- large blocks (more than 256 x 256 processing pixels each) whose only valid pixels are a few tiny patches next to a large valid area in the
+    #      neighbouring block: nothing about a block may be estimated from a sample of its pixels that can miss them
+    for k in range(run.scale(1, 4)):
+        ratio = 2
+        ph, pw = 300 + 10 * rng.randint(0, 3), 620 + 10 * rng.randint(0, 4)
+        g = synth.Geom(1.0, ratio, 16.0, 48.0, (ph + 8, pw + 8), (4, 4), (ph * ratio, pw * ratio))
+        sm = np.zeros(g.src_shape, bool)
+        sm[:, :g.src_shape[1] // 2 - 40] = True                       # the left block: a large valid area
+        for _ in range(7):                                            # the right block: 2 x 2 (source px) patches at odd processing positions
+            r0 = 2 * (2 * rng.randint(5, ph // 2 - 5) + 1)
+            c0 = g.src_shape[1] // 2 + 2 * (2 * rng.randint(10, pw // 4 - 10) + 1)
+            sm[r0:r0 + 2, c0:c0 + 2] = True
+        yy, xx = np.mgrid[0:g.src_shape[0], 0:g.src_shape[1]]
+        src = (40 + 0.01 * yy + 0.02 * xx + (yy % 7) + (xx % 5)).astype('float32')[None]
+        ref = np.full((1, *g.ref_shape), 0, 'float32') + (60 + 0.02 * np.add.outer(np.arange(g.ref_shape[0]), 2 * np.arange(g.ref_shape[1])) +
+                                                           (np.add.outer(np.arange(g.ref_shape[0]) % 5, np.arange(g.ref_shape[1]) % 3))).astype('float32')[None]
+        pair = fz.make_pair(run.work, g, rng, src=src, ref=ref, smask=sm, tag='big')
+        model = ['gain-blk-offset', 'gain', 'gain-offset', 'gain-blk-offset'][k % 4]
+        mbm, nblk = fz.pick_block_mem(pair['src_fn'], pair['ref_fn'], 'auto', 2, (3, 3))
+        res = fz.fuse(pair['src_fn'], pair['ref_fn'], run.work / 'big_out.tif', model=model, kernel_shape=(3, 3), proc_crs='auto', max_block_mem=mbm, threads=2,
+                      param=False, model_config=dict(r2_inpaint_thresh=0.25, upsampling='bilinear'))
+        desc = dict(geom=g.describe(), model=model, kernel_shape=[3, 3], blocks=nblk, max_block_mem=mbm, source_mask='large valid area + 7 isolated 2 x 2 patches',
+                    processing_block_pixels=int(ph * pw / max(nblk, 1)))
+        dist['large-blocks/' + model] = dist.get('large-blocks/' + model, 0) + 1
+        run.count_case(('big', k), True, desc if k < 1 else None)
+        got = res['corr']['mask']
+        if (got & ~sm).any():
+            run.add_violation('a corrected pixel is valid although the source pixel is not', desc, observed=dict(n=int((got & ~sm).sum())), signature=dict(kind='mask-invented'))
+        lost = sm & ~got
+        if lost.any():
+            r, c = [int(v) for v in np.argwhere(lost)[0]]
+            run.add_violation('a valid source pixel is invalid in the corrected image although the reference is valid there and the data are positive', desc,
+                              observed=dict(pixel=[r, c], n=int(lost.sum())), signature=dict(kind='mask-lost', model=model, cause='other'))
     run.cov['rule'] = ('real fusions of positive textured data with the reference valid over the footprint: geometries (ratios, sub-pixel offsets with the x.5 / x.25 '
                        'family over-sampled, origins up to 7.6e6), source masks (holes, 1-px islands, borders, a nearly empty block), 3 models, kernels incl. h != w, '
                        '3 grids, source invalidity stored as NaN / finite nodata (-9999, 0, 1000) / internal mask / uint16 0, 1..30 blocks, nearest / bilinear / cubic-spline up-sampling, output nodata NaN / numeric / internal mask on float32 / uint16 / float64: '
